@@ -325,7 +325,44 @@ def _aged_relock_once(rnd, idx):
                      yieldp=rnd.choice([0, 0, 200]))
 
 
-DIRECTED = [d_purge_held, d_stall, d_stall, d_waiters, d_spurious, d_indep, d_relock, d_aged_relock]
+def d_short_stale_relock(rnd, idx):
+    """The staleness timeout is SHORTER than the clean-up period (S < F). A key is used at t0, and used again at r with
+    t0 + S < r < T (T the next tick) and T - r < S: the second use refreshes the entry, so at the tick it is young and the
+    clean-up must leave the held entry alone; a Lock arriving right after the tick has to wait. If a use did not refresh
+    the entry's lastAccess (say, only when the recorded value is a whole clean-up period old) the tick would see an entry
+    last used at t0, more than S ago, delete it while it is held, and admit the late-comer next to the holder.
+    Every hold is shorter than S."""
+    while True:
+        F = rnd.choice([400, 1000, 1000, 2500])
+        S = rnd.randint(F // 5, F // 2)                       # S < F
+        k = rnd.choice([1, 2, 3, 7])
+        m = rnd.randint(1, 3)
+        t0 = m * F + rnd.randint(1, 3)                        # right after the m-th tick
+        h1 = rnd.randint(0, 3)
+        T = (m + 1) * F                                       # the next tick
+        lo, hi = max(t0 + S + 1, T - S + 2), T - 1
+        if lo > hi:
+            continue
+        r = rnd.randint(lo, hi)
+        nw = rnd.randint(1, 3)
+        d = rnd.randint(nw + 2, max(nw + 3, S // 4))          # the holder leaves at T + d, hold = T + d - r < S
+        if T + d - r >= S - 2:
+            continue
+        a = [(t0, "L%d" % k), (t0 + h1, "U%d" % k), (r, "L%d" % k), (T + d, "U%d" % k)]
+        progs = [_timeline(a)]
+        for i in range(nw):
+            arrive = T + rnd.randint(1, d - 1)
+            progs.append(_timeline([(arrive, "L%d" % k)]) + ["S%d" % rnd.randint(1, 3), "U%d" % k])
+        if rnd.random() < 0.5:
+            k2 = k + 10
+            progs.append(_timeline([(rnd.randint(1, T), "L%d" % k2)]) + ["S%d" % rnd.randint(1, 9), "U%d" % k2])
+        if _bounds(progs, 0, [])[1] >= S:
+            continue
+        return _assemble("dsr%05d" % idx, "short-stale-relock", progs, rnd, procs=rnd.choice([1, 1, 2]), maxsize=BIGSIZE, cleanup=F, stale=S,
+                         yieldp=rnd.choice([0, 0, 200]))
+
+
+DIRECTED = [d_purge_held, d_stall, d_stall, d_waiters, d_spurious, d_indep, d_relock, d_aged_relock, d_short_stale_relock]
 
 
 def gen_start(rnd, idx, tier):
